@@ -8,9 +8,11 @@ import GdVerif.Props.C04_gs3
   `Gs3.query` (and `query_vars`) against the SPEC's server (`Spec/Gs3.lean`), on the scripts of
   `props/families/gs3.py: c10_build`: a plan (`Spec/Gs3Faults.lean`) lists the attempts that end in a timeout-class
   failure — at the HANDSHAKE stage (the challenge reply is lost / the handshake request cannot be sent) or at the DATA
-  stage (the server answers the handshake, then the data packets are lost / the data request cannot be sent) — and how
-  the unit ends: the valid exchange (data packets in ANY order of arrival), nothing, or a malformed datagram at either
-  stage.  `faultyScript` / `faultyFaults` are the two arguments of `Net.init`; what follows them (`restQ`, `restF`) is
+  stage (the server answers the handshake, then the data packets are lost / the data request cannot be sent; the reply
+  may also STOP HALF WAY: some of the data packets — any selection of them, each at most once, in any order, at least one
+  missing, `Attempt.got` / `Faults.partOf` — still arrive before the silence) — and how the unit ends: the valid exchange
+  (data packets in ANY order of arrival), nothing, or a malformed datagram at either stage (at the data stage possibly
+  after some of the data packets).  `faultyScript` / `faultyFaults` are the two arguments of `Net.init`; what follows them (`restQ`, `restF`) is
   arbitrary.  Quantified: state and wire layout in the SPEC's domain (any challenge, 1–128 packets, any arrival order),
   port, retry count, the plan.
 -/
@@ -18,13 +20,15 @@ open Gd Gd.Gs3 Gd.Gs3.Spec Gd.Faults
 
 /-- THE GENERAL STATEMENT.  For every plan in C10's domain for the retry count (`wfPlan`: a unit that is answered —
 validly, or by a datagram that does not start with the kind byte of its stage — had at most `retries` timeout-class
-failures before, a unit that is given up exactly `retries + 1`): the query returns the outcome the property prescribes
+failures before, a unit that is given up exactly `retries + 1`; what a failed attempt, or the attempt that meets the
+malformed datagram, still receives of the reply at the data stage is nothing or an incomplete selection of its data
+packets): the query returns the outcome the property prescribes
 (`faultyExpected`: the fault-free response / the last failure's error / the malformed datagram's error), and the
 datagrams it sent are exactly the plan's (`faultySends`: every attempt starts with the handshake request; a failed
 attempt at the data stage also sends the data request). -/
 theorem C10_gs3_query_faulty (cfg : Config) (st : State) (h : wf cfg st = true) (port retries : Nat)
-    (arrival : List Bytes) (harr : arrival.Perm (dataPackets cfg st)) (plan : Plan) (hplan : wfPlan retries plan = true)
-    (restQ : List Delivery) (restF : List Bool) :
+    (arrival : List Bytes) (harr : arrival.Perm (dataPackets cfg st)) (plan : Plan)
+    (hplan : wfPlan retries (dataPackets cfg st) plan = true) (restQ : List Delivery) (restF : List Bool) :
     (Gs3.query port retries
         (Net.init [.opened (faultyScript cfg plan arrival ++ restQ)] (faultyFaults plan ++ restF))).1
       = faultyExpected st plan
@@ -36,8 +40,8 @@ theorem C10_gs3_query_faulty (cfg : Config) (st : State) (h : wf cfg st = true) 
 
 /-- the same for `query_vars`: the variables sent, under the same faults -/
 theorem C10_gs3_query_vars_faulty (cfg : Config) (st : State) (h : wf cfg st = true) (port retries : Nat)
-    (arrival : List Bytes) (harr : arrival.Perm (dataPackets cfg st)) (plan : Plan) (hplan : wfPlan retries plan = true)
-    (restQ : List Delivery) (restF : List Bool) :
+    (arrival : List Bytes) (harr : arrival.Perm (dataPackets cfg st)) (plan : Plan)
+    (hplan : wfPlan retries (dataPackets cfg st) plan = true) (restQ : List Delivery) (restF : List Bool) :
     (Gs3.queryVars port retries
         (Net.init [.opened (faultyScript cfg plan arrival ++ restQ)] (faultyFaults plan ++ restF))).1
       = (faultyPackets cfg st plan >>= buildVars)
@@ -48,11 +52,13 @@ theorem C10_gs3_query_vars_faulty (cfg : Config) (st : State) (h : wf cfg st = t
   exact exchange_faulty cfg st h port retries buildVars arrival harr plan hplan restQ restF
 
 /-- (a) RECOVERY.  `fails` (any number ≤ `retries`; each at the handshake or at the data stage, a silence or a failed
-send) precede the valid exchange: the query returns exactly `Spec.expected st` — by `C04_gs3_query` the result with no
+send, the silence at the data stage possibly after some — not all — of the data packets: `Attempt.wf`) precede the valid
+exchange; nothing an abandoned attempt received shows in the result: the query returns exactly `Spec.expected st` — by `C04_gs3_query` the result with no
 faults —, and `fails.length + 1` attempts (handshake requests) were made. -/
 theorem C10_gs3_query_recovers (cfg : Config) (st : State) (h : wf cfg st = true) (port retries : Nat)
     (arrival : List Bytes) (harr : arrival.Perm (dataPackets cfg st)) (fails : List Attempt)
-    (hk : fails.length ≤ retries) (restQ : List Delivery) (restF : List Bool) :
+    (hk : fails.length ≤ retries) (hw : ∀ a ∈ fails, a.wf (dataPackets cfg st) = true) (restQ : List Delivery)
+    (restF : List Bool) :
     let plan : Plan := ⟨fails, .valid⟩
     let out := Gs3.query port retries
         (Net.init [.opened (faultyScript cfg plan arrival ++ restQ)] (faultyFaults plan ++ restF))
@@ -60,7 +66,8 @@ theorem C10_gs3_query_recovers (cfg : Config) (st : State) (h : wf cfg st = true
     ∧ Gd.sentOf out.2.log = fails.flatMap (Attempt.sends cfg) ++ [(handshakeRequest, false), (dataRequest cfg.challenge, false)]
     ∧ attemptsOf (Gd.sentOf out.2.log) = fails.length + 1 := by
   intro plan out
-  obtain ⟨h1, h2⟩ := C10_gs3_query_faulty cfg st h port retries arrival harr plan (by simp [plan, wfPlan, hk]) restQ restF
+  obtain ⟨h1, h2⟩ := C10_gs3_query_faulty cfg st h port retries arrival harr plan
+    (by simp only [plan, wfPlan, Bool.and_eq_true, List.all_eq_true, decide_eq_true_eq]; exact ⟨hw, hk⟩) restQ restF
   refine ⟨h1, h2, ?_⟩
   show attemptsOf (Gd.sentOf out.2.log) = _
   rw [show Gd.sentOf out.2.log = _ from h2, attemptsOf_plan]
@@ -71,7 +78,8 @@ the last attempt's error — `PacketReceive`, or `PacketSend` when that attempt 
 (`C10_gs3_last_error`) — after exactly `retries + 1` attempts, whatever the script still holds. -/
 theorem C10_gs3_query_exhausted (cfg : Config) (st : State) (h : wf cfg st = true) (port retries : Nat)
     (arrival : List Bytes) (harr : arrival.Perm (dataPackets cfg st)) (fails : List Attempt)
-    (hk : fails.length = retries + 1) (restQ : List Delivery) (restF : List Bool) :
+    (hk : fails.length = retries + 1) (hw : ∀ a ∈ fails, a.wf (dataPackets cfg st) = true) (restQ : List Delivery)
+    (restF : List Bool) :
     let plan : Plan := ⟨fails, .gaveUp⟩
     let out := Gs3.query port retries
         (Net.init [.opened (faultyScript cfg plan arrival ++ restQ)] (faultyFaults plan ++ restF))
@@ -80,7 +88,8 @@ theorem C10_gs3_query_exhausted (cfg : Config) (st : State) (h : wf cfg st = tru
     ∧ Gd.sentOf out.2.log = fails.flatMap (Attempt.sends cfg)
     ∧ attemptsOf (Gd.sentOf out.2.log) = retries + 1 := by
   intro plan out
-  obtain ⟨h1, h2⟩ := C10_gs3_query_faulty cfg st h port retries arrival harr plan (by simp [plan, wfPlan, hk]) restQ restF
+  obtain ⟨h1, h2⟩ := C10_gs3_query_faulty cfg st h port retries arrival harr plan
+    (by simp only [plan, wfPlan, Bool.and_eq_true, List.all_eq_true, beq_iff_eq]; exact ⟨hw, hk⟩) restQ restF
   have h1' : out.1 = .err (lastError Attempt.error fails) := h1
   refine ⟨h1', ?_, by
     rw [show Gd.sentOf out.2.log = _ from h2]
@@ -97,22 +106,25 @@ theorem C10_gs3_last_error (fails : List Attempt) (a : Attempt) :
   lastError_append fails a
 
 /-- (c) A MALFORMED REPLY IS NOT RETRIED.  After any number ≤ `retries` of timed-out attempts, an attempt receives — as
-the handshake reply, or after a valid handshake as the first data packet — a datagram that does not start with the kind
-byte of that stage (`09` / `00`), or is empty: ANY such datagram.  Whatever `retries` is, the query fails at once with
+the handshake reply, or after a valid handshake as the first data packet or after any incomplete selection `got` of the
+data packets — a datagram that does not start with the kind byte of that stage (`09` / `00`), or is empty: ANY such
+datagram.  Whatever `retries` is, the query fails at once with
 `PacketBad` / `PacketUnderflow` (not a timeout-class error), and no further attempt is made: `fails.length + 1` in all. -/
 theorem C10_gs3_query_malformed_not_retried (cfg : Config) (st : State) (h : wf cfg st = true) (port retries : Nat)
     (arrival : List Bytes) (harr : arrival.Perm (dataPackets cfg st)) (fails : List Attempt)
-    (hk : fails.length ≤ retries) (stage : Stage) (m : Bytes) (hm : malformedAt stage m = true)
-    (restQ : List Delivery) (restF : List Bool) :
-    let plan : Plan := ⟨fails, .malformed stage m⟩
+    (hk : fails.length ≤ retries) (hw : ∀ a ∈ fails, a.wf (dataPackets cfg st) = true) (stage : Stage)
+    (got : List Bytes) (hgot : gotAt (dataPackets cfg st) stage false got = true) (m : Bytes)
+    (hm : malformedAt stage m = true) (restQ : List Delivery) (restF : List Bool) :
+    let plan : Plan := ⟨fails, .malformed stage got m⟩
     let out := Gs3.query port retries
         (Net.init [.opened (faultyScript cfg plan arrival ++ restQ)] (faultyFaults plan ++ restF))
     out.1 = .err (malformedError m)
     ∧ (malformedError m).isTimeout = false
-    ∧ Gd.sentOf out.2.log = fails.flatMap (Attempt.sends cfg) ++ (Ending.malformed stage m).sends cfg
+    ∧ Gd.sentOf out.2.log = fails.flatMap (Attempt.sends cfg) ++ (Ending.malformed stage got m).sends cfg
     ∧ attemptsOf (Gd.sentOf out.2.log) = fails.length + 1 := by
   intro plan out
-  obtain ⟨h1, h2⟩ := C10_gs3_query_faulty cfg st h port retries arrival harr plan (by simp [plan, wfPlan, hk, hm])
+  obtain ⟨h1, h2⟩ := C10_gs3_query_faulty cfg st h port retries arrival harr plan
+    (by simp only [plan, wfPlan, Bool.and_eq_true, List.all_eq_true, decide_eq_true_eq]; exact ⟨hw, ⟨hk, hm⟩, hgot⟩)
     restQ restF
   refine ⟨h1, malformedError_not_timeout m, h2, ?_⟩
   show attemptsOf (Gd.sentOf out.2.log) = _
@@ -124,32 +136,60 @@ theorem C10_gs3_query_malformed_not_retried (cfg : Config) (st : State) (h : wf 
 -- (a) the challenge reply lost once, then the data packets lost once (after a valid handshake): 6 deliveries
 -- (silence; handshake reply, silence; handshake reply, 2 data packets), 5 sends; the result is the state, 3 attempts
 example (port : Nat) :
-    (faultyScript C04_gs3_exampleConfig ⟨[⟨.handshake, false⟩, ⟨.data, false⟩], .valid⟩
+    (faultyScript C04_gs3_exampleConfig ⟨[⟨.handshake, false, []⟩, ⟨.data, false, []⟩], .valid⟩
       (dataPackets C04_gs3_exampleConfig C04_gs3_exampleState)).length = 6
-    ∧ faultyFaults ⟨[⟨.handshake, false⟩, ⟨.data, false⟩], .valid⟩ = [false, false, false, false, false]
+    ∧ faultyFaults ⟨[⟨.handshake, false, []⟩, ⟨.data, false, []⟩], .valid⟩ = [false, false, false, false, false]
     ∧ (Gs3.query port 2 (Net.init [.opened (faultyScript C04_gs3_exampleConfig
-          ⟨[⟨.handshake, false⟩, ⟨.data, false⟩], .valid⟩ (dataPackets C04_gs3_exampleConfig C04_gs3_exampleState) ++ [])]
-        (faultyFaults ⟨[⟨.handshake, false⟩, ⟨.data, false⟩], .valid⟩ ++ []))).1 = .ok (expected C04_gs3_exampleState)
+          ⟨[⟨.handshake, false, []⟩, ⟨.data, false, []⟩], .valid⟩ (dataPackets C04_gs3_exampleConfig C04_gs3_exampleState) ++ [])]
+        (faultyFaults ⟨[⟨.handshake, false, []⟩, ⟨.data, false, []⟩], .valid⟩ ++ []))).1 = .ok (expected C04_gs3_exampleState)
     ∧ attemptsOf (Gd.sentOf (Gs3.query port 2 (Net.init [.opened (faultyScript C04_gs3_exampleConfig
-          ⟨[⟨.handshake, false⟩, ⟨.data, false⟩], .valid⟩ (dataPackets C04_gs3_exampleConfig C04_gs3_exampleState) ++ [])]
-        (faultyFaults ⟨[⟨.handshake, false⟩, ⟨.data, false⟩], .valid⟩ ++ []))).2.log) = 3 := by
+          ⟨[⟨.handshake, false, []⟩, ⟨.data, false, []⟩], .valid⟩ (dataPackets C04_gs3_exampleConfig C04_gs3_exampleState) ++ [])]
+        (faultyFaults ⟨[⟨.handshake, false, []⟩, ⟨.data, false, []⟩], .valid⟩ ++ []))).2.log) = 3 := by
   have h := C10_gs3_query_recovers C04_gs3_exampleConfig C04_gs3_exampleState C04_gs3_example_wf port 2 _
-    (List.Perm.refl _) [⟨.handshake, false⟩, ⟨.data, false⟩] (by decide) [] []
+    (List.Perm.refl _) [⟨.handshake, false, []⟩, ⟨.data, false, []⟩] (by decide) (by decide) [] []
   exact ⟨by decide, by decide, h.1, h.2.2⟩
 
 -- (b) three timeouts, the last one a failed send of the data request: PacketSend after 3 attempts
 example (port : Nat) (restQ : List Delivery) :
     (Gs3.query port 2 (Net.init [.opened (faultyScript C04_gs3_exampleConfig
-          ⟨[⟨.handshake, true⟩, ⟨.data, false⟩, ⟨.data, true⟩], .gaveUp⟩
+          ⟨[⟨.handshake, true, []⟩, ⟨.data, false, []⟩, ⟨.data, true, []⟩], .gaveUp⟩
           (dataPackets C04_gs3_exampleConfig C04_gs3_exampleState) ++ restQ)]
-        (faultyFaults ⟨[⟨.handshake, true⟩, ⟨.data, false⟩, ⟨.data, true⟩], .gaveUp⟩ ++ []))).1 = .err .packetSend :=
+        (faultyFaults ⟨[⟨.handshake, true, []⟩, ⟨.data, false, []⟩, ⟨.data, true, []⟩], .gaveUp⟩ ++ []))).1 = .err .packetSend :=
   (C10_gs3_query_exhausted C04_gs3_exampleConfig C04_gs3_exampleState C04_gs3_example_wf port 2 _
-    (List.Perm.refl _) [⟨.handshake, true⟩, ⟨.data, false⟩, ⟨.data, true⟩] rfl restQ []).1
+    (List.Perm.refl _) [⟨.handshake, true, []⟩, ⟨.data, false, []⟩, ⟨.data, true, []⟩] rfl (by decide) restQ []).1
 
 -- (c) retries = 7: after a valid handshake the datagram FF FF arrives instead of a data packet: PacketBad at once
 example (port : Nat) :
-    (Gs3.query port 7 (Net.init [.opened (faultyScript C04_gs3_exampleConfig ⟨[], .malformed .data [0xFF, 0xFF]⟩
+    (Gs3.query port 7 (Net.init [.opened (faultyScript C04_gs3_exampleConfig ⟨[], .malformed .data [] [0xFF, 0xFF]⟩
           (dataPackets C04_gs3_exampleConfig C04_gs3_exampleState) ++ [])]
-        (faultyFaults ⟨[], .malformed .data [0xFF, 0xFF]⟩ ++ []))).1 = .err .packetBad :=
+        (faultyFaults ⟨[], .malformed .data [] [0xFF, 0xFF]⟩ ++ []))).1 = .err .packetBad :=
   (C10_gs3_query_malformed_not_retried C04_gs3_exampleConfig C04_gs3_exampleState C04_gs3_example_wf port 7 _
-    (List.Perm.refl _) [] (by decide) .data [0xFF, 0xFF] (by decide) [] []).1
+    (List.Perm.refl _) [] (by decide) (by decide) .data [] (by decide) [0xFF, 0xFF] (by decide) [] []).1
+
+/-! ### a reply that stops half way: the server's reply travels as two data packets -/
+
+/-- the second of the two data packets -/
+def C10_gs3_demoGot : List Bytes := (dataPackets C04_gs3_exampleConfig C04_gs3_exampleState).drop 1
+
+-- (a) the first attempt receives the handshake reply and the SECOND data packet, then nothing; the second attempt is
+-- answered: 7 deliveries, the result is the state, 2 attempts; (c) retries = 7, after the handshake reply and the second
+-- data packet the datagram FF FF arrives: PacketBad at once, one attempt
+example (port : Nat) (restQ : List Delivery) :
+    (dataPackets C04_gs3_exampleConfig C04_gs3_exampleState).length = 2
+    ∧ (faultyScript C04_gs3_exampleConfig ⟨[⟨.data, false, C10_gs3_demoGot⟩], .valid⟩
+      (dataPackets C04_gs3_exampleConfig C04_gs3_exampleState)).length = 6
+    ∧ (Gs3.query port 2 (Net.init [.opened (faultyScript C04_gs3_exampleConfig
+          ⟨[⟨.data, false, C10_gs3_demoGot⟩], .valid⟩ (dataPackets C04_gs3_exampleConfig C04_gs3_exampleState) ++ restQ)]
+        (faultyFaults ⟨[⟨.data, false, C10_gs3_demoGot⟩], .valid⟩ ++ []))).1 = .ok (expected C04_gs3_exampleState)
+    ∧ attemptsOf (Gd.sentOf (Gs3.query port 2 (Net.init [.opened (faultyScript C04_gs3_exampleConfig
+          ⟨[⟨.data, false, C10_gs3_demoGot⟩], .valid⟩ (dataPackets C04_gs3_exampleConfig C04_gs3_exampleState) ++ restQ)]
+        (faultyFaults ⟨[⟨.data, false, C10_gs3_demoGot⟩], .valid⟩ ++ []))).2.log) = 2
+    ∧ (Gs3.query port 7 (Net.init [.opened (faultyScript C04_gs3_exampleConfig
+          ⟨[], .malformed .data C10_gs3_demoGot [0xFF, 0xFF]⟩
+          (dataPackets C04_gs3_exampleConfig C04_gs3_exampleState) ++ restQ)]
+        (faultyFaults ⟨[], .malformed .data C10_gs3_demoGot [0xFF, 0xFF]⟩ ++ []))).1 = .err .packetBad := by
+  have h := C10_gs3_query_recovers C04_gs3_exampleConfig C04_gs3_exampleState C04_gs3_example_wf port 2 _
+    (List.Perm.refl _) [⟨.data, false, C10_gs3_demoGot⟩] (by decide) (by decide) restQ []
+  have hm := C10_gs3_query_malformed_not_retried C04_gs3_exampleConfig C04_gs3_exampleState C04_gs3_example_wf port 7 _
+    (List.Perm.refl _) [] (by decide) (by decide) .data C10_gs3_demoGot (by decide) [0xFF, 0xFF] (by decide) restQ []
+  exact ⟨by decide, by decide, h.1, h.2.2, hm.1⟩
